@@ -72,12 +72,20 @@ LEVEL_TEXT = (
     "start-ups against the fake API in which change handlers, daemons and timers (not only on-event handlers) report what "
     "their own kwargs show of the indices (S; oracle only, nothing of kopf wrapped). The retry/exclusion half of the "
     "Lean reference shares exhausted/lookahead/awake with the model (definitional there); it is checked independently "
-    "only by the Python oracle.")
+    "only by the Python oracle. LISTED producer (what the gate's input label `listed r` stands for): for every interleaving of "
+    "pauses with the rounds of a watch-stream (LIST answered / failed / abandoned because of a pause) every LISTED comes after an "
+    "ANSWERED LIST request of its round and after all its items (listed_means_listed), an abandoned round yields nothing, no round "
+    "begins while paused; three broken variants refuted; tied to the real infinite_watch/streaming_block/continuous_watch/"
+    "watch_objs/list_objs by trace acceptance (L), and the S start-ups run with the REAL peering pausing the operator while the "
+    "initial LIST requests are in flight.")
 TIE = ("D: real process_resource_event + OperatorIndexers vs Lean model after every event (views in dict order, "
        "retry memory incl. started); A: real orchestration.adjust_tasks (empty first batch in namespaced mode, later "
        "revisions, redundant/dead watchers)/watcher/worker/ToggleSet traces accepted by the Lean LTS (`handle` logged at "
        "the entry of process_resource_causes); S: real kopf.operator() start-ups on the fake API, observed by the handlers' "
-       "own kwargs (oracle only)")
+       "own kwargs (oracle only), half of them peered: paused by a higher-priority record before/while/after the initial LISTs; "
+       "L: real watching.infinite_watch + streaming_block + continuous_watch + watch_objs + fetching.list_objs over a scripted "
+       "api.get/api.stream with a real ToggleSet(any) turned on and off: label traces accepted by the Lean LTS of the LISTED producer, "
+       "its `out` = what the consumer received")
 THEOREMS = [
     ("Kopf.Props.C17", "Kopf.C17.run_total"),
     ("Kopf.Props.C17", "Kopf.C17.fwd_rev_consistent"),
@@ -112,6 +120,12 @@ THEOREMS = [
     ("Kopf.Props.C17", "Kopf.C17.Gate.noBlocker_witness"),
     ("Kopf.Props.C17", "Kopf.C17.Gate.noKindToggle_witness"),
     ("Kopf.Props.C17", "Kopf.C17.Gate.dropBeforeIndex_witness"),
+    ("Kopf.Props.C17", "Kopf.C17.Listing.listed_means_listed"),
+    ("Kopf.Props.C17", "Kopf.C17.Listing.abandoned_round_is_silent"),
+    ("Kopf.Props.C17", "Kopf.C17.Listing.nothing_listed_while_paused"),
+    ("Kopf.Props.C17", "Kopf.C17.Listing.abandonedReportsListed_witness"),
+    ("Kopf.Props.C17", "Kopf.C17.Listing.listedBeforeItems_witness"),
+    ("Kopf.Props.C17", "Kopf.C17.Listing.listWhilePaused_witness"),
 ]
 RULE = ("index: 1-3 @kopf.index handlers (resource x label filter x errors mode x retries x backoff x timeout) over 1-3 "
         "kinds, 1-4 objects incl. delete-and-recreate, 1-14 events with times placed on/around retry and timeout "
@@ -133,7 +147,13 @@ RULE = ("index: 1-3 @kopf.index handlers (resource x label filter x errors mode 
         "2-3 kinds, >= 1 indexed, each with a random subset of on-event/create/resume/update/daemon/timer handlers (also none, "
         "also no on-event handler), 0-3 objects per kind existing before the start (40% handled by a previous incarnation: "
         "resume instead of create), LIST latency per kind 0-2 s, index functions 0-1 s, 0-3 creations/edits/deletions during the "
-        "start-up; distinct by kinds x handler sets x order of index/handler starts.")
+        "start-up; LIST requests answered 503 once or twice first (30%); half of the start-ups PEERED (real peering, priority 0): a "
+        "higher-priority record is written into the ClusterKopfPeering and removed again 1-2 times (15% also before the start), aimed "
+        "at 1/4, 1/2, 3/4 of the in-flight span of a slow LIST, for 1/4-3 s; distinct by kinds x handler sets x order of index/handler starts. "
+        "listing (the producer of LISTED): one watch-stream, 3-7 scripted LIST requests (latency 0-2 s; 0-3 items / connection error / "
+        "429 / 410), 2-4 watch requests (0-2 events; closed / 410 ERROR event / silent), consumer delay 0-1/4 s, 0-3 pauses through two "
+        "pausing toggles aimed into the LIST flights (also at t=0, also in the instant of the answer); distinct by the label sequence, "
+        "non-trivial with an abandoned or failed LIST.")
 TRUSTED = [
     "abstraction of results to script kinds (mapping result / None / exception class; whether a non-dict Mapping counts as a "
     "mapping result is probed on the OperatorIndexer.replace under test) and of bodies to (kind, ns/name/uid, label); the other "
@@ -147,7 +167,12 @@ TRUSTED = [
     "kinds and a predecessor/successor pair handled by two workers share one index entry (open finding C17-F6: corpus "
     "witnesses F6_*, replayed on the real code; the oracle tells such objects apart, the Lean model follows make_key)",
     "part S: harness/sim (virtual-time loop, fake API server with per-kind LIST latency added by a FakeSession subclass), "
-    "the handlers' own logs; the operator runs cluster-wide and standalone (no peering, no pause)",
+    "the handlers' own logs and the fake server's own log of LIST requests (started / answered / 503 / abandoned by the client); "
+    "the operator runs cluster-wide; half of the runs standalone, half with the real peering (one foreign record `boss`, priority "
+    "9999, written and removed by the scenario)",
+    "part L: api.get / api.stream are scripted (everything above them is kopf's: list_objs, watch_objs, continuous_watch, "
+    "streaming_block, infinite_watch); `begin`/`endWatch` are logged by a wrapper around watching.streaming_block (module attribute), "
+    "`abandon` where the scripted api.get is cancelled (or at the end of a round whose LIST task never reached it)",
     "events are modelled one after another: OperatorIndexers.replace/discard are synchronous and touch only the event's own "
     "object key (theorem others_untouched), so concurrent workers of different objects commute on the indices",
 ]
@@ -1262,10 +1287,292 @@ def oracle_gate(case: dict, obs: dict) -> list[tuple[str, dict, dict]]:
 
 
 # =================================================================================================
+# part L — the PRODUCER of Bookmark.LISTED: the real watching.infinite_watch / streaming_block /
+# continuous_watch / watch_objs and the real fetching.list_objs over a scripted API (api.get, api.stream),
+# with a real ToggleSet(any) as `operator_paused` turned on and off while LIST requests are in flight
+# =================================================================================================
+LISTING_SIG = {"site": "watch-stream (the producer of LISTED)", "shape": "LISTED yielded without an answered LIST request and all its items before it"}
+
+
+def gen_listing_case(rng: random.Random) -> dict:
+    """One watch-stream of one kind: a script of LIST requests (latency; answered with 0-3 items, a connection error,
+    429 or 410), a script of watch requests (events, then the server closes / a 410 ERROR event / silence until the client
+    closes), a consumer that takes its time between the items, and a pause timeline aimed at the in-flight spans."""
+    lists = []
+    for _ in range(rng.choice([2, 3, 4, 6])):
+        out = rng.choice(["items", "items", "items", "items", "conn", "429", "410"])
+        lists.append({"delay": rng.choice([0, 1 / 64, 1 / 4, 1 / 4, 1 / 2, 1.0, 2.0]),
+                      "outcome": out, "n": rng.choice([0, 0, 1, 2, 3]) if out == "items" else 0})
+    lists.append({"delay": rng.choice([0, 1 / 4]), "outcome": "items", "n": rng.choice([0, 1, 2])})   # repeated for ever
+    watches = []
+    for _ in range(rng.choice([1, 2, 3])):
+        watches.append({"events": rng.choice([0, 0, 1, 2]), "gap": rng.choice([1 / 64, 1 / 4, 1.0]),
+                        "end": rng.choice(["close", "gone", "hang", "hang"])})
+    watches.append({"events": 0, "gap": 1 / 4, "end": "hang"})
+    pauses, t = [], 0.0
+    if rng.random() < 0.1:
+        pauses.append([0.0, True, 0])
+        t = rng.choice([1 / 4, 1.0])
+        pauses.append([t, False, 0])
+    for _ in range(rng.choice([0, 1, 1, 2, 3])):
+        if rng.random() < 0.6:      # into the first still-unaimed LIST's flight
+            l = rng.choice(lists[:3])
+            t += rng.choice([1 / 4, 1 / 2, 3 / 4]) * max(l["delay"], 1 / 16)
+        else:
+            t += rng.choice([0, 1 / 64, 1 / 8, 1 / 4, 1.0, 2.5])
+        t = round(t * 64) / 64
+        dur = rng.choice([1 / 4, 1 / 2, 1.0, 3.0])
+        tog = rng.choice([0, 0, 1])         # two pausing toggles (peering + anything else): paused = any of them
+        pauses.append([t, True, tog])
+        pauses.append([t + dur, False, tog])
+        t += dur + rng.choice([0, 1 / 64, 1 / 4])
+    return {"kind": "listing", "lists": lists, "watches": watches, "pauses": pauses,
+            "consumer_delay": rng.choice([0, 0, 1 / 64, 1 / 4]), "backoff": rng.choice([1 / 8, 1 / 8, 1 / 2]),
+            "end": t + 6.0 + sum(l["delay"] for l in lists)}
+
+
+async def run_listing_case(case: dict) -> dict:
+    import aiohttp
+    from kopf._cogs.aiokits import aiotoggles
+    from kopf._cogs.clients import api, errors, watching
+    from kopf._cogs.configs import configuration
+    from kopf._cogs.structs import references
+    loop = asyncio.get_running_loop()
+    t0 = loop.time()
+    labels: list[list] = []         # for the Lean LTS
+    log: list[list] = []            # for the oracle: server side (list-*) and consumer side (got-*) only
+    res = references.Resource(GROUP, VERSION, "kexa", kind="Kexa", singular="kexa", namespaced=True, preferred=True,
+                              verbs=frozenset({"list", "watch", "patch"}))
+    paused = aiotoggles.ToggleSet(any)
+    toggles = [await paused.make_toggle(False, name="peering"), await paused.make_toggle(False, name="button")]
+    rnd = {"phase": "blocked"}
+    n_list, n_watch, uid = [0], [0], [0]
+
+    def now() -> float:
+        return loop.time() - t0
+
+    def item() -> dict:
+        uid[0] += 1
+        return {"metadata": {"name": f"o{uid[0]}", "namespace": "ns", "uid": f"u{uid[0]}", "resourceVersion": str(100 + uid[0])}}
+
+    async def fake_get(url: str, **_: Any) -> Any:
+        sc = case["lists"][min(n_list[0], len(case["lists"]) - 1)]
+        n_list[0] += 1
+        log.append(["list-start", now(), paused.is_on()])
+        try:
+            if sc["delay"]:
+                await asyncio.sleep(sc["delay"])
+        except asyncio.CancelledError:
+            log.append(["list-abandoned", now()])
+            labels.append(["abandon"])
+            rnd["phase"] = "blocked"
+            raise
+        if sc["outcome"] == "items":
+            log.append(["list-answered", now(), sc["n"]])
+            labels.append(["answer", sc["n"]])
+            rnd["phase"] = "yielding"
+            return {"kind": "KexaList", "apiVersion": f"{GROUP}/{VERSION}", "metadata": {"resourceVersion": "100"},
+                    "items": [item() for _ in range(sc["n"])]}
+        log.append(["list-failed", now(), sc["outcome"]])
+        labels.append(["fail"])
+        rnd["phase"] = "blocked"
+        if sc["outcome"] == "conn":
+            raise aiohttp.ClientConnectionError("fake")
+        if sc["outcome"] == "429":
+            raise errors.APITooManyRequestsError({"code": 429, "message": "slow down"}, status=429, headers={})
+        raise errors.APIClientError({"code": 410, "message": "gone"}, status=410, headers={})
+
+    async def fake_stream(url: str, *, stopper: Any = None, **_: Any) -> Any:
+        sc = case["watches"][min(n_watch[0], len(case["watches"]) - 1)]
+        n_watch[0] += 1
+        for _ in range(sc["events"]):
+            await asyncio.wait({stopper}, timeout=sc["gap"])
+            if stopper.done():
+                return
+            yield {"type": "MODIFIED", "object": item()}
+        if sc["end"] == "gone":
+            yield {"type": "ERROR", "object": {"code": 410, "message": "too old"}}
+        elif sc["end"] == "hang":
+            await asyncio.wait({stopper})
+        else:
+            await asyncio.wait({stopper}, timeout=sc["gap"])
+
+    real_block = watching.streaming_block
+
+    import contextlib
+
+    @contextlib.asynccontextmanager
+    async def block(**kw: Any) -> Any:
+        async with real_block(**kw) as waiter:
+            labels.append(["begin"])
+            rnd["phase"] = "listing"
+            try:
+                yield waiter
+            finally:
+                if rnd["phase"] == "listing":       # the LIST task was cancelled before it reached the API
+                    labels.append(["abandon"])
+                elif rnd["phase"] == "watching":
+                    labels.append(["endWatch"])
+                rnd["phase"] = "blocked"
+
+    settings = configuration.OperatorSettings()
+    settings.watching.reconnect_backoff = case["backoff"]
+    settings.watching.server_timeout = None
+    settings.watching.client_timeout = None
+    settings.watching.inactivity_timeout = 4096.0
+    crashed: list[str] = []
+
+    async def consumer() -> None:
+        try:
+            async for ev in watching.infinite_watch(settings=settings, resource=res, namespace="ns", operator_paused=paused):
+                if ev is watching.Bookmark.LISTED:
+                    log.append(["got-listed", now()])
+                    labels.append(["yieldListed"])
+                    rnd["phase"] = "watching"
+                elif isinstance(ev, dict) and ev.get("type") is None:
+                    log.append(["got-item", now()])
+                    labels.append(["yieldItem"])
+                else:
+                    log.append(["got-event", now()])
+                    labels.append(["event"])
+                if case["consumer_delay"]:
+                    await asyncio.sleep(case["consumer_delay"])
+        except asyncio.CancelledError:
+            raise
+        except BaseException as e:  # noqa: BLE001
+            crashed.append(repr(e))
+
+    async def pauser() -> None:
+        for t, on, tog in sorted(case["pauses"], key=lambda x: x[0]):
+            d = t0 + t - loop.time()
+            if d > 0:
+                await asyncio.sleep(d)
+            before = paused.is_on()
+            await toggles[tog].turn_to(on)
+            after = paused.is_on()
+            if before != after:
+                labels.append(["pause" if after else "unpause"])
+                log.append(["paused" if after else "unpaused", now()])
+
+    saved = (api.get, api.stream, watching.streaming_block)
+    api.get, api.stream, watching.streaming_block = fake_get, fake_stream, block     # type: ignore[assignment]
+    try:
+        ptask = asyncio.create_task(pauser())
+        await asyncio.sleep(0)          # a pause at t=0 is in force before the stream is asked for anything
+        ctask = asyncio.create_task(consumer())
+        await asyncio.sleep(case["end"])
+        n_done = len(labels)
+        for tk in (ctask, ptask):
+            tk.cancel()
+        await asyncio.wait({ctask, ptask})
+    finally:
+        api.get, api.stream, watching.streaming_block = saved     # type: ignore[assignment]
+    return {"labels": labels[:n_done], "log": log, "crashed": crashed}
+
+
+def oracle_listing(case: dict, obs: dict) -> list[tuple[str, dict, dict]]:
+    """From the property text ('listed … once') over the server's and the consumer's own observations: whenever the
+    stream hands LISTED to its consumer, the server has ANSWERED a LIST request since the previous LISTED / since the
+    latest LIST request began, and the consumer has received exactly that answer's items in between."""
+    fails: list[tuple[str, dict, dict]] = []
+    answered: int | None = None
+    got = 0
+    for n, l in enumerate(obs["log"]):
+        if l[0] == "list-start":
+            answered, got = None, 0
+            # (a LIST request that reaches the server while paused is NOT judged: on unchanged kopf a pause that comes in the
+            # very instant in which streaming_block has let the round through meets the request on its way out; it is given
+            # up at once, in the same instant. The property says nothing about it; the Lean tie checks that streaming_block
+            # itself never lets a round begin while paused: `startedPaused`.)
+        elif l[0] == "list-answered":
+            answered, got = l[2], 0
+        elif l[0] == "got-item":
+            got += 1
+        elif l[0] == "got-listed":
+            if answered is None or got != answered:
+                fails.append((f"the watch-stream yielded LISTED at t={l[1]} (log entry #{n}) "
+                              + ("while no LIST request had been answered in this round (the latest one was abandoned or failed): "
+                                 "the kind was not listed" if answered is None else
+                                 f"after {got} of the {answered} items of the LIST answer"),
+                              {"entry": n, "answered": answered, "items_before": got}, LISTING_SIG))
+                break
+            answered = None
+    if obs["crashed"]:
+        fails.append((f"the watch-stream died: {obs['crashed'][:1]}", {}, {"site": "watch-stream", "shape": "crash"}))
+    return fails
+
+
+def run_listing_cases(cases: list[dict]) -> list[dict]:
+    out = []
+    for case in cases:
+        async def main(case: dict = case) -> dict:
+            return await run_listing_case(case)
+        obs = _sim(main, wall=120.0)
+        out.append({"case": case, "obs": obs, "fails": oracle_listing(case, obs)})
+    return out
+
+
+def summarise_listing(results: list[dict], source: str, sm: dict | None = None, with_lean: bool = True) -> dict:
+    sm = sm if sm is not None else _new_summary()
+    reqs = []
+    for r in results:
+        case, obs = r["case"], r["obs"]
+        names = [l[0] for l in obs["labels"]]
+        sm["cases"].append(("l" + _h(canon(obs["labels"])), "abandon" in names or "fail" in names))
+        for nme in names:
+            _count(sm, "listing.label", nme)
+        _count(sm, "listing.rounds_abandoned_by_a_pause", names.count("abandon"))
+        _count(sm, "listing.listed_delivered", names.count("yieldListed"))
+        _count(sm, "listing.answer_and_pause_at_the_same_moment",
+               any(a[0] == "list-answered" and any(b[0] == "paused" and b[1] == a[1] for b in obs["log"]) for a in obs["log"]))
+        _count(sm, "listing.source", source)
+        sm["traces"] += 1
+        if "abandon" in names and len(sm["samples"]) < 1:
+            sm["samples"].append({"listing": obs["labels"][:24]})
+        for what, detail, sig in r["fails"]:
+            if len(sm["oracle"]) < 12:
+                sm["oracle"].append((what, {"case": case, "detail": detail, "log": obs["log"][:80]}, sig))
+        reqs.append(["C17.listing", obs["labels"]])
+    if with_lean and reqs:
+        try:
+            outs = _ask(reqs)
+        except leanio.LeanError as e:
+            sm["lean_error"] = (str(e), e.log[-2000:])
+            return sm
+        for r, out in zip(results, outs):
+            res = out[1] if out and out[0] == "ok" else out
+            ok = isinstance(res, dict) and res.get("accepted") is True and res.get("startedPaused") is False
+            if ok:      # what the model says the stream has yielded = what the consumer has received
+                want = [("item" if l[0] == "got-item" else "event" if l[0] == "got-event" else "listed")
+                        for l in r["obs"]["log"] if l[0].startswith("got-")]
+                have = [(o if isinstance(o, str) else "listed") for o in res.get("out", [])]
+                ok = want[:len(have)] == have and len(want) - len(have) <= 1
+            sm["tie_comparisons"] += 1
+            if not ok and len(sm["tie"]) < 10:
+                at = res.get("at") if isinstance(res, dict) else None
+                sm["tie"].append(("watch-stream trace is not accepted by the model of the LISTED producer",
+                                  {"case": r["case"], "result": res,
+                                   "around": r["obs"]["labels"][max(0, (at or 0) - 8):(at or 0) + 2] if at is not None else None}))
+    return sm
+
+
+def listing_shard(args: tuple) -> dict:
+    seed, n, repo, with_lean = args
+    _prepare(repo)
+    rng = random.Random(f"C17-listing-{seed}")
+    sm = _new_summary()
+    cases = [gen_listing_case(rng) for _ in range(n)]
+    summarise_listing(run_listing_cases(cases), "generated", sm, with_lean)
+    return sm
+
+
+# =================================================================================================
 # part S — the gate end to end: a real operator against the fake API (harness/props/sim_c17.py)
 # =================================================================================================
 BOOT_HANDLERS = ["event", "create", "resume", "update", "daemon", "timer"]
 BOOT_SIG = {"site": "start-up gate (whole operator)", "shape": "a handler started before the initial index was complete"}
+BOOT_LISTED_SIG = {"site": "start-up gate (whole operator)", "shape": "a handler started before every indexed kind had a LIST request answered"}
+BOOT_LIST_BEGINS = 3 / 64      # when the initial LIST requests of a peered start-up reach the fake server (measured; only aims the pauses)
 BOOT_VIEW_SIG = {"site": "start-up gate (whole operator)", "shape": "a handler does not see an initially listed object in the index it was given"}
 
 
@@ -1301,10 +1608,52 @@ def gen_boot_case(rng: random.Random) -> dict:
             timeline.append([t, rng.choice(["edit", "edit", "delete"]), k["name"], o["name"], rng.choice([3, 4, 5])])
         else:
             timeline.append([t, "create", k["name"], f"{k['name'][-1]}n{len(timeline)}", rng.choice([3, 4, 5])])
-    settings: dict[str, Any] = {"queueing.idle_timeout": rng.choice([5.0, 5.0, 0.25, 1 / 16])}
-    end = 4.0 + max(list_delay.values()) + sum(index_delay.values())
+    settings: dict[str, Any] = {"queueing.idle_timeout": rng.choice([5.0, 5.0, 0.25, 1 / 16]),
+                                "watching.reconnect_backoff": 0.125}
+    # -- the pause (half of the runs): the operator runs with the REAL peering (priority 0, a ClusterKopfPeering
+    # object); a foreign record of a higher priority is written into it and removed again: before the start, before,
+    # WHILE and after the initial LIST requests are in flight (the times are aimed at the in-flight spans of the slow
+    # kinds; a LIST that is retried after 503s is in flight for longer). Nothing must be listed while paused; an
+    # abandoned LIST is not a listing: the kind is listed (and its objects indexed) only after the un-pausing.
+    peering = None
+    list_errors: dict[str, int] = {}
+    if rng.random() < 0.3:
+        for k in kinds:
+            if rng.random() < 0.5:
+                list_errors[k["name"]] = rng.choice([1, 1, 2])
+    pause_total = 0.0
+    if rng.random() < 0.5:
+        peering = {"paused_at_start": rng.random() < 0.15}
+        if rng.random() < 0.7:      # a slow API server: the pause has something to fall into
+            for k in kinds:
+                if list_delay[k["name"]] < 1 / 4 and rng.random() < 0.6:
+                    list_delay[k["name"]] = rng.choice([1 / 4, 1 / 2, 1.0, 2.0])
+        t = 0.0
+        if peering["paused_at_start"]:
+            t = rng.choice([1 / 4, 1.0, 3.0])
+            timeline.append([t, "resume", None, None, None])
+            pause_total += t
+        for _ in range(rng.choice([1, 1, 1, 2])):
+            slow = [k["name"] for k in kinds if list_delay[k["name"]] >= 1 / 4 or list_errors.get(k["name"])]
+            if slow and rng.random() < 0.75:
+                kn = rng.choice(slow)
+                span = list_delay[kn] * (1 + list_errors.get(kn, 0)) + 1.0 * list_errors.get(kn, 0)
+                t += BOOT_LIST_BEGINS + rng.choice([1 / 4, 1 / 2, 3 / 4]) * span
+            else:
+                t += rng.choice([1 / 64, 1 / 8, 1 / 4, 1 / 2, 1.0, 2.5])
+            t = round(t * 64) / 64
+            dur = rng.choice([1 / 4, 1.0, 1.0, 3.0])
+            timeline.append([t, "pause", None, None, None])
+            timeline.append([t + dur, "resume", None, None, None])
+            pause_total += dur
+            t += dur
+    n_rounds = 1 + (len([x for x in timeline if x[1] == "pause"]) if peering else 0) + (1 if peering and peering["paused_at_start"] else 0)
+    end = (4.0 + (max(list_delay.values()) + 0.25) * (n_rounds + max(list_errors.values(), default=0))
+           + 4.0 * max(list_errors.values(), default=0) + sum(index_delay.values()) + pause_total
+           + max([x[0] for x in timeline], default=0.0))
     return {"kind": "boot", "runner": "harness.props.sim_c17:run_boot", "kinds": kinds, "objects": objects,
-            "list_delay": list_delay, "index_delay": index_delay, "timeline": sorted(timeline, key=lambda x: x[0]),
+            "list_delay": list_delay, "list_errors": list_errors, "peering": peering,
+            "index_delay": index_delay, "timeline": sorted(timeline, key=lambda x: x[0]),
             "handler_delay": rng.choice([0, 0, 1 / 64, 1 / 4]), "timer_initial_delay": rng.choice([0, 0, 1 / 4]),
             "settings": settings, "end": end}
 
@@ -1321,11 +1670,20 @@ def oracle_boot(case: dict, tr: dict) -> list[tuple[str, dict, dict]]:
     deleted_at = {(x[2], x[3]): x[0] for x in reversed(case.get("timeline", [])) if x[1] == "delete"}
     t0 = next((l[1] for l in tr["log"] if l[0] == "operator-started"), 0.0)
     done: set[tuple[str, str]] = set()
+    answered: set[str] = set()        # kinds with a LIST request answered 200 by the server (abandoned / failed ones do not count)
     for n, l in enumerate(tr["log"]):
         if l[0] == "index-end":
             done.add((l[1], l[2]))
+        elif l[0] == "list-end":
+            answered.add(l[1])
         elif l[0] == "start":
             _, htype, kind, name, t, seen = l
+            unlisted = sorted(indexed - answered)
+            if unlisted:
+                fails.append((f"the {htype} handler of {kind}/{name} started at t={t} (log entry #{n}) while no LIST request of the "
+                              f"indexed kinds {unlisted} had been answered yet: these kinds were never listed",
+                              {"entry": n, "handler": htype, "never_listed": unlisted}, BOOT_LISTED_SIG))
+                break
             alive = [(k, nm, v) for (k, nm, v) in initial if not ((k, nm) in deleted_at and t0 + deleted_at[(k, nm)] <= t)]
             missing = sorted((k, nm) for (k, nm, _v) in alive if (k, nm) not in done)
             if missing:
@@ -1388,6 +1746,11 @@ def summarise_boot(results: list[dict], source: str, sm: dict | None = None) -> 
         _count(sm, "boot.gate_load_bearing", any(case["list_delay"][k["name"]] < slowest and k["handlers"]
                                                  and any(o["kind"] == k["name"] for o in case["objects"]) for k in case["kinds"]))
         _count(sm, "boot.handlers_ran", bool(starts))
+        _count(sm, "boot.peered", bool(case.get("peering")))
+        _count(sm, "boot.initial_list_of_indexed_kind_abandoned_by_pause",
+               any(l[0] == "list-abandoned" and l[1] in indexed and not any(m[0] == "list-end" and m[1] == l[1] for m in tr["log"][:n])
+                   for n, l in enumerate(tr["log"])))
+        _count(sm, "boot.list_answered_503_first", sum(1 for l in tr["log"] if l[0] == "list-error"))
         _count(sm, "boot.source", source)
         sm["traces"] += 1
         if starts and n_init and len(sm["samples"]) < 2:
@@ -1657,9 +2020,11 @@ def run(ctx: Ctx) -> None:
     _prepare(str(ctx.repo))
     thorough = ctx.tier == "thorough"
     # ---- corpus first
-    icorp, gcorp, bcorp = [], [], []
+    icorp, gcorp, bcorp, lcorp = [], [], [], []
     for _name, data in load_corpus(ID):
-        {"index": icorp, "gate": gcorp, "boot": bcorp}[data["case"]["kind"]].append(data["case"])
+        {"index": icorp, "gate": gcorp, "boot": bcorp, "listing": lcorp}[data["case"]["kind"]].append(data["case"])
+    if lcorp:
+        _merge(ctx, summarise_listing(run_listing_cases(lcorp), "corpus"))
     if icorp:
         _merge(ctx, summarise_index(run_index_cases(icorp), "corpus"))
     if gcorp:
@@ -1675,6 +2040,11 @@ def run(ctx: Ctx) -> None:
         _merge(ctx, sm)
     for sm in _map(gate_shard, gjobs, thorough):
         _merge(ctx, sm)
+    # ---- part L: the producer of LISTED under pauses
+    n_listing = ctx.budget(150, 6000)
+    ljobs = [(base + i, n_listing // shards + (1 if i < n_listing % shards else 0), str(ctx.repo), True) for i in range(shards)]
+    for sm in _map(listing_shard, ljobs, thorough):
+        _merge(ctx, sm)
     # ---- part S: whole-operator start-ups (subprocess workers on all cores: harness/sim/pool)
     n_boot = ctx.budget(48, 1600)
     rng = random.Random(f"C17-boot-{base}")
@@ -1689,7 +2059,7 @@ def search(ctx: Ctx, broken: list) -> None:
     n_index = ctx.budget(20_000, 200_000)
     n_gate = ctx.budget(1000, 10_000)
     base = ctx.seed * 1000 + 500
-    for fn, n in ((index_shard, n_index), (gate_shard, n_gate)):
+    for fn, n in ((index_shard, n_index), (gate_shard, n_gate), (listing_shard, ctx.budget(1600, 16_000))):
         for sm in _map(fn, [(base + i, n // 16, str(ctx.repo), False) for i in range(16)], True):
             for what, replay_, sig in sm["oracle"]:
                 ctx.oracle_fail(what, replay_, sig)
@@ -1703,7 +2073,7 @@ def replay(ctx: Ctx, data: dict) -> None:
     _prepare(str(ctx.repo))
     case = data["replay"]["case"] if "replay" in data else data["case"]
     res = run_index_cases([case]) if case["kind"] == "index" else run_gate_cases([case]) if case["kind"] == "gate" \
-        else run_boot_cases([case])
+        else run_listing_cases([case]) if case["kind"] == "listing" else run_boot_cases([case])
     for r in res:
         for what, detail, sig in r["fails"]:
             print(f"replay: {what}", file=sys.stderr)
